@@ -2,7 +2,7 @@
    quantified statements over the stated field ranges. *)
 From Coq Require Import ZArith List Bool Lia.
 Import ListNotations.
-Require Import Base.Py Base.ZList Model.InfoBase Model.InfoMpeg Gen.Gen_tables.
+Require Import Base.Py Base.ZList Model.InfoBase Model.InfoMpeg Gen.Gen_tables Proofs.C05_tables.
 Open Scope Z_scope.
 
 Lemma zrange_from_In lo n x : lo <= x < lo + Z.of_nat n -> In x (zrange_from lo n).
@@ -54,9 +54,6 @@ Proof.
   apply (proj1 (forallb_forall mpeg_check mpeg_domain) mpeg_all_checked).
   apply mpeg_domain_In; assumption.
 Qed.
-
-Theorem mpeg_tables_match_spec : mpeg_bitrate_table_diff = [] /\ mpeg_rate_table_diff = [].
-Proof. split; vm_compute; reflexivity. Qed.
 
 Lemma mpeg_invalid_checked : forallb mpeg_rejects mpeg_invalid_domain = true.
 Proof. vm_compute. reflexivity. Qed.
